@@ -10,7 +10,7 @@ vars == <<pc, key, out>>
 G == IF Tier = "quick" THEN 4 ELSE 7
 Span == 8
 
-Families == {"mat23", "bounds", "kb"} \cup (IF Tier = "quick" THEN {} ELSE {"mat24", "s34", "kb3", "s25"})
+Families == {"mat23", "bounds", "kb", "unb"} \cup (IF Tier = "quick" THEN {} ELSE {"mat24", "s34", "kb3", "s25"})
 
 A25 == <<<<3, 2, 1, 0, 1>>, <<0, 1, 2, 3, 1>>>>
 A12b == <<<<1, 2>>>>
@@ -21,6 +21,9 @@ SystemsOf(f) ==
     [] f = "s34" -> SysBoundsOf(A34)
     [] f = "bounds" -> UNION {SysBoundsOf(A) : A \in {A23, A23b}} \cup (IF Tier = "quick" THEN {} ELSE SysBoundsOf(A24))
     [] f = "kb" -> SysKBOf(A23, Vec(3, 0), Vec(3, 4), KVariants(2)) \cup SysKBOf(A23b, Vec(3, 2), Vec(3, 8), KVariantsPos(2))
+    (* sources without an upper bound (growth beyond the property, which quantifies over finite ub): capture matrices  *)
+    (* with strictly positive column sums, for which the solution polytope is bounded and its vertices give the extents *)
+    [] f = "unb" -> UNION {{Plain(A, 4, lbv, Vec(3, INF)) : lbv \in {Vec(3, 0), Vec(3, 1), <<2, 0, 1>>}} : A \in {A23, A23b}}
     [] f = "kb3" -> SysKBOf(A34, Vec(4, 0), Vec(4, 4), KVariants(3))
 
 TargetRecord(s, b) ==
